@@ -9,9 +9,18 @@
  * %% double; ALLOW_FILES off: '<' is ignored.
  * strtoull/strtod/strtof are CONTRACT stubs: they consume an arbitrary number of characters in [0, strlen] and return an
  * arbitrary value (0 when nothing is consumed); the reference uses the same returned values, so what is decided is where
- * the parser calls them, how far it advances and how it lays the value out (width, endianness, mask). */
+ * the parser calls them, how far it advances and how it lays the value out (width, endianness, mask).
+ * The text lives in an EXACT-SIZE heap object (malloc(LEN + 1): the text bytes and the terminating NUL, nothing after it) and
+ * the parser is handed a std::string that refers to it in place (w_parse_ds_inplace, see wrap.cc), so a read one byte past
+ * the terminator is outside every object: CBMC's pointer checks fail on it, ASan reports heap-buffer-overflow on replay.
+ * Optional concrete prefix (cells): NPRE in 0..3 and P0, P1, P2 = the first NPRE text bytes; the remaining LEN - NPRE bytes are
+ * symbolic. The branches of the parser on the concrete bytes fold, so one query per construct opener costs seconds. */
 #include "harness.h"
-int64_t w_parse_ds(uint8_t* text, uint64_t n, uint32_t want_mask, uint64_t flags, uint8_t* out, uint64_t cap, uint8_t* mask_out, int64_t* mask_len);
+#include <stdlib.h>
+int64_t w_parse_ds_inplace(uint8_t* text, uint64_t n, uint32_t want_mask, uint64_t flags, uint8_t* out, uint64_t cap, uint8_t* mask_out, int64_t* mask_len);
+#ifndef NPRE
+#define NPRE 0
+#endif
 
 #define MAXCALLS (LEN + 1)
 static uint32_t armed, ncalls;
@@ -77,13 +86,28 @@ static int hexval(uint8_t c) {
 }
 void harness(void) {
   uint8_t t[LEN + 1], out[CAP], mout[CAP];
-  in_bytes(t, LEN);
+#if NPRE >= 1
+  t[0] = P0;
+#endif
+#if NPRE >= 2
+  t[1] = P1;
+#endif
+#if NPRE >= 3
+  t[2] = P2;
+#endif
+  in_bytes(t + NPRE, LEN - NPRE);
   t[LEN] = 0;
   uint32_t want_mask = in_bool();
   int64_t ml = -1000;
+  uint8_t* tx = (uint8_t*)malloc(LEN + 1); /* exact-size object: text + NUL */
+#ifdef VERIF_CBMC
+  __CPROVER_assume(tx != 0);
+#endif
+  for (int i = 0; i <= LEN; i++) tx[i] = t[i];
   armed = 1;
-  int64_t r = w_parse_ds(t, LEN, want_mask, 0, out, CAP, mout, &ml);
+  int64_t r = w_parse_ds_inplace(tx, LEN, want_mask, 0, out, CAP, mout, &ml);
   armed = 0;
+  free(tx);
   OBS(r); OBS(ml);
   /* reference parser, consuming the logged conversions in order */
   uint64_t n = my_strlen(t), pos = 0, call = 0;
